@@ -197,7 +197,7 @@ WS = [" ", " ", " ", "\n", "\t", "  ", "\r\n", " \n ", "\f"]
 INNERS = ["", "click", "é ü 中", "a &amp; b", "(415) 735-4488", "lemonde"]
 TEXTS = ["", " ", "\n", "Ural Mountains http://www.thisurlshouldnotmatch.com, ", "é\xa0ü 中", "&amp; &#x2F; &quot;", 'a href="http://no.fr"', "ſ K İ", " ", "href=/no "]
 NOHREF = ["<p>", "</p>", '<b class="x">', "<br/>", '<a name="top">', "<a>", '<a v-href="favori.getPoi().path">', '<a class="favori-link" :href="p">', '<a data-href="/no">',
-          '<abbr title="t">', "<article>", '<aside class="a href">', '<img src="http://b.org/i.png">', '<link rel="stylesheet" href="/s.css">', "</a>", '<a\nclass="x">', "<A HREFX=/no>", '<a name="n" title="see href=/decoy">']
+          '<abbr title="t">', "<article>", '<aside class="a href">', '<img src="http://b.org/i.png">', '<link rel="stylesheet" href="/s.css">', "</a>", '<a\nclass="x">', "<A HREFX=/no>", '<a name="n" title="see href=/decoy">', "<a title='a href=/d1' data-x=\"b href=/d2\">", '<A TITLE="x HREF=/decoy" rel=nofollow>']
 SCRIPT_OPEN = ["<script>", '<script type="text/javascript">', "<SCRIPT>", '<script nomodule type="text/javascript">', "<script\n>", '<script src="x.js" async>']
 SCRIPT_CLOSE = ["</script>", "</script>", "</SCRIPT>"]
 JS_TEXT = ["console.log('", "')", "if (a<b) {}", 'var s = "</a>";', "\n", "// é <", "x = '<a href=' + u + '>';"]
@@ -462,7 +462,7 @@ def node_desc(nodes):
             d.append("script[" + inner + "]")
         elif n[0] == "n":
             # an anchor WITHOUT href whose quoted attribute value contains ' href=' is its own mechanism class
-            d.append("hrefless-anchor(attr-value-contains-href=)" if re.match(r"(?i)<a\s", n[1]) and re.search(r"""["'][^"'>]*\shref=""", n[1]) else "hrefless-tag")
+            d.append("hrefless-anchor(attr-value-contains-href=)" if re.match(r"(?i)<a\s", n[1]) and re.search(r"""(?i)["'][^"'>]*\shref=""", n[1]) else "hrefless-tag")
         elif n[0] == "x":
             d.append("raw:" + n[2])
         else:
@@ -1011,6 +1011,7 @@ def directed():
     add("edge-entity-space", [anchor("&#32;/x&nbsp;"), anchor("&nbsp;http://b.org/x&#32;"), anchor("\xa0/y ")])
     add("lookalike-attrs", [anchor("/yes", pre=['data-href="/no"']), anchor("/yes2", post=['data-href="/no"', 'hreflang="fr"']), anchor("/yes3", pre=[DECOY_ATTR])])
     add("decoy-attr-after", [anchor("/yes", post=[DECOY_ATTR])])
+    add("decoy-only-then-anchor", [["n", '<a name="n" title="see href=/decoy">'], ["t", "y"], ["n", "</a>"], anchor("/z", q=""), ["n", "<a title='a href=/d1' data-x=\"b href=/d2\">"], anchor("/w", q="'", pre=[DECOY_ATTR], post=[DECOY_ATTR])])
     add("nonascii", [["t", "é\xa0ü"], anchor("/é?q=中", inner="中"), ["t", "ſ K"]])
     # href kinds
     add("kinds", [anchor(h) for h in ["http://b.org/x", "//b.org/x", "y.html", "/y", "../y", "./", "?q=1", "#", "#top", "javascript:void(0)", "mailto:a@b.org", "", "http://b.idontexistlol/x", "x//y"]])
